@@ -216,6 +216,11 @@ func ruleGuardCompose(c *Ctx) {
 				c.exempt(key, call, why, fp...)
 				return
 			}
+			// last resort: the interval analysis bounds the exponent at the call
+			if iv := p.intervalAt(fd, expArg, stackOf(fd, call)); iv.lo != nil && iv.hi != nil && iv.lo.Sign() >= 0 && iv.hi.Cmp(big.NewInt(specMaxBiasedExp)) <= 0 {
+				c.ok(key, call, fmt.Sprintf("interval analysis: the exponent lies in [%v, %v] at the call", iv.lo, iv.hi), fp...)
+				return
+			}
 			c.bad(key, call, fmt.Sprintf("%s: the exponent `%s` reaches compose without passing the overflow guard `> maxBiasedExponent -> ±Inf` (a result above the largest exponent would be packed into the 14-bit field and wrap)", name, p.exprStr(expArg)), fp...)
 		})
 	}
